@@ -297,8 +297,12 @@ class Point(object):
                 value = None
                 for point, weight in self.decomposition_dict.items():
                     value = weight * point.eval() if value is None else value + weight * point.eval()
+                # A point without any leaf point (null point, null gradient of a stationary point) is the null vector
+                # of the same dimension as the values of the leaf points when they have one.
                 if value is None:
-                    value = np.zeros(Point.counter)
+                    dimension = next((len(point._value) for point in Point.list_of_leaf_points
+                                      if point._value is not None), Point.counter)
+                    value = np.zeros(dimension)
                 self._value = value
 
         return self._value
